@@ -314,11 +314,13 @@ func main() {
 		njobs = 1
 	}
 	type jobRes struct {
-		r   *wire.ShardResult
-		out string
-		err error
+		r           *wire.ShardResult
+		out         string
+		err         error
+		shard, part int
 	}
-	results := make([]jobRes, njobs)
+	var results []jobRes
+	var resMu sync.Mutex
 	var wg sync.WaitGroup
 	sem := make(chan struct{}, jobs)
 	for i := 0; i < njobs; i++ {
@@ -331,11 +333,30 @@ func main() {
 			if (i+1)*tp.PerJob > tp.Cases {
 				n = tp.Cases - i*tp.PerJob
 			}
-			r, out, err := runJob(wire.Config{Property: id, Tier: tier, Seed: seed, Shard: i, NShards: njobs, MaxCases: n, MaxSeconds: tp.Seconds, Mode: "run"}, fmt.Sprintf("job%d", i))
-			results[i] = jobRes{r, out, err}
+			// a worker that asks to be recycled is continued by a fresh process at the case it stopped at
+			first, left := 0, float64(tp.Seconds)
+			for part := 0; first < n && part < 1000; part++ {
+				r, out, err := runJob(wire.Config{Property: id, Tier: tier, Seed: seed, Shard: i, NShards: njobs, FirstCase: first, MaxCases: n - first, MaxSeconds: left, Mode: "run"}, fmt.Sprintf("job%d.%d", i, part))
+				resMu.Lock()
+				results = append(results, jobRes{r, out, err, i, part})
+				resMu.Unlock()
+				if err != nil || r == nil || !r.Recycle || r.Cases == 0 {
+					break
+				}
+				first += r.Cases
+				if left -= r.WallS; left < 5 {
+					break
+				}
+			}
 		}(i)
 	}
 	wg.Wait()
+	sort.Slice(results, func(a, b int) bool {
+		if results[a].shard != results[b].shard {
+			return results[a].shard < results[b].shard
+		}
+		return results[a].part < results[b].part
+	})
 
 	// 3. merge
 	tooling := false
